@@ -405,6 +405,13 @@ def run_cases(ctx, exe, cases, cnt, var, cov, dist, distinct, nested=False):
             bads = [(p, k) for p, k in bads if not (p == cp or p.startswith(cp + b"/"))]
             if not any(r.startswith("E:") for r in replies):
                 ctx.offender("isolation:unreported", "an entry that could not be written was not reported", cj)
+            # what was in the way is "another file": it must still be what it was
+            rw = snaps[i].get(cp)
+            if c["conflict"][1] == "d" and not (rw and rw["kind"] == "f" and rw["data"] == b"in the way"):
+                ctx.offender("isolation:entry-in-the-way-damaged", "the regular file in the way of the directory %r was "
+                             "replaced or overwritten (now %s)" % (cp, rw and (rw["kind"], (rw["data"] or b"")[:30])), cj)
+            if c["conflict"][1] == "f" and not (rw and rw["kind"] == "d"):
+                ctx.offender("isolation:entry-in-the-way-damaged", "the directory in the way of the file %r is gone" % cp, cj)
         expected = {}
         dc = pcp.lexnorm(CWD, c["dest"])
         for _, t in c["srcs"]:
